@@ -282,6 +282,7 @@ def _main(args, prop, seed, t0, workdir):
   violations = []
   seen_bucket = set()
   unreproduced = 0
+  harness_unrepro = []
   for sc, case, v, regfile in failures:
     bucket = (sc, v['kind'])
     if bucket in seen_bucket:
@@ -303,9 +304,11 @@ def _main(args, prop, seed, t0, workdir):
         print(f'WARNING property={prop} scenario={sc}: a failure ({v["kind"]}) did not reproduce in {tries} reruns; '
               f'counted as inconclusive: {v["msg"][:700]}')
         continue
-      print(f'HARNESS-ERROR property={prop} scenario={sc}: failure does not reproduce from its case description: '
-            f'{v["kind"]}: {v["msg"][:500]}')
-      return 2
+      # a deterministic scenario whose failure does not replay from its case description: state leaked between cases of one
+      # process. Not a violation; remembered, and a harness error unless another failure is confirmed.
+      harness_unrepro.append(f'scenario={sc}: failure does not reproduce from its case description: {v["kind"]}: {v["msg"][:500]}')
+      seen_bucket.add(bucket)
+      continue
     seen_bucket.add(bucket)
     os.makedirs(os.path.join(HERE, 'replays'), exist_ok=True)
     if regfile:
@@ -364,7 +367,13 @@ def _main(args, prop, seed, t0, workdir):
     for path, sc, v in violations:
       print(f'  [{sc}] {v["kind"]}: {v["msg"][:1500]}')
       print(f'VIOLATION property={prop} replay={path}')
+    for m in harness_unrepro:
+      print(f'WARNING property={prop} {m}')
     return 1
+  if harness_unrepro:
+    for m in harness_unrepro:
+      print(f'HARNESS-ERROR property={prop} {m}')
+    return 2
   return 0
 
 
